@@ -128,8 +128,9 @@ CLAIMED = {
         "text": "Coq theorems (props/C11.v) over the model regenerated from metrics/proportion.py: true counts reported, method "
                 "selection (binom / auto below 1000 / norm), tested share r/(1+r) with scalar = mapping form, closed form of the "
                 "normal path with the continuity correction (half a unit towards zero, never across), swap invariance and range "
-                "of the normal-path p-value. The exact binomial branch is an oracle (scipy.stats.binomtest) validated against an "
-                "exact rational two-sided binomial test incl. swap symmetry (C11_binom_partial)",
+                "of the normal-path p-value; the exact two-sided binomial test (hand definition) is swap-symmetric and a "
+                "probability, hence the exact path is swap invariant for any oracle with that symmetry. That "
+                "scipy.stats.binomtest is that test is validated against an exact rational computation (C11_binom_partial)",
         "note": "trusted: Coq kernel, stdlib real axioms, translator (Proportion spec), law L2/L6 of the normal family, scipy "
                 "binomtest / norm.sf",
         "technique": "Coq proof over translator-generated model; exact differential with stand-ins; exact-rational binomial oracle",
